@@ -131,10 +131,7 @@ class Check:
                     cands.append(r)
         for kind, args in cands:
             fn = self.replayers.get(kind)
-            try:
-                good, _ = fn(args) if fn else (False, "")
-            except Exception:  # noqa
-                good = False
+            good = self._try_replay(fn, args)
             if good:
                 self.report(key or label, what or label, kind, args)
                 return False
@@ -175,10 +172,17 @@ class Check:
         if fn is None:
             self.inconclusive.append(f"{key}: no replayer '{kind}'")
             return False
+        from . import real as _real
+        from . import stubs as _stubs
+
+        prev_ctx, _real._CUR[0] = _real._CUR[0], None  # replays are float runs: no symbolic context, no stubs
         try:
-            ok, detail = fn(args)
+            with _stubs.suspended():
+                ok, detail = fn(args)
         except Exception as e:  # noqa
             ok, detail = False, f"replayer crashed: {e!r}\n{traceback.format_exc()[-600:]}"
+        finally:
+            _real._CUR[0] = prev_ctx
         self.validated += 1
         if not ok:
             self.inconclusive.append(f"{key}: candidate did not reproduce on the real code ({detail})")
@@ -204,6 +208,22 @@ class Check:
         print(f"  what: {what}\n  key: {key}\n  detail: {str(detail)[:600]}", flush=True)
         self.violations.append((key, what, path))
         return True
+
+    def _try_replay(self, fn, args):
+        from . import real as _real
+        from . import stubs as _stubs
+
+        if fn is None:
+            return False
+        prev_ctx, _real._CUR[0] = _real._CUR[0], None
+        try:
+            with _stubs.suspended():
+                good, _ = fn(args)
+        except Exception:  # noqa
+            good = False
+        finally:
+            _real._CUR[0] = prev_ctx
+        return bool(good)
 
     def inconclusive_note(self, text):
         self.inconclusive.append(text)
@@ -322,11 +342,7 @@ def prove_pairs(chk, cname, pairs, facts, replay_for, key_for, sample=None):
                 rep = None
             if rep is not None:
                 n0 = len(chk.violations) + len(chk.known_hits)
-                fn = chk.replayers.get(rep[0])
-                try:
-                    good, detail = fn(rep[1])
-                except Exception as e:  # noqa
-                    good, detail = False, repr(e)
+                good = chk._try_replay(chk.replayers.get(rep[0]), rep[1])
                 if good:
                     chk.obligations += 1
                     chk.evaluations += 1
